@@ -2,12 +2,12 @@
   Oracle commands for C09 (registry client).  Digests are written as the hex of their pre-image
   (`D := Bytes`, `H := id`).
 
-    pull <thr> <limit|-1> <linkShortcut 0|1> <verifyBeforeLink 0|1> <nattempts> {attempt}*
+    pull <thr> <limit|-1> <linkShortcut 0|1> <verifyBeforeLink 0|1> <stagedChunks 0|1> <nattempts> {attempt}*
       attempt := <name> ( manerr <cls> | man <id> <dataLen> <nlayers> {<dig> <size>}* <hascfg 0|1> [<dig> <size>] )
                  <nplans> {plan}* <nsteps> {step}*
       plan    := pfail | plist <n> {<dig> <start> <len>}*
       step    := cancel | rel <k> fail <cls> | rel <k> body <npieces> {<hex>}* <eof|err>
-      -> per attempt "<outcome> n=<waiting requests before each step> link=<manifest id|none> files=<hex,...>", joined by " | "
+      -> per attempt "<outcome> n=<waiting requests before each step> link=<manifest id|none> files=<hex,...> stage=<hex,...>", joined by " | "
     push <nlayers> {postErr|cached|putOk|putErr}* <nsched> {k}* <manifestOk 0|1>
       -> "<events> res=<ok|err>" | bad-schedule
     legacy <nlayers> {<head 0|1|2> <post 0|1> <npatch> {0|1}* <ncommit> {0|1}*}* <manifestOk 0|1>
@@ -101,7 +101,7 @@ def pAttempt : TP (Attempt Dg) := do
   pure ⟨name, man, plans, steps⟩
 
 /-- number of waiting chunk requests before each step -/
-def waiting (verify : Bool) (limit : Option Nat) : Run Dg → List Step → List Nat
+def waiting (verify : Variant) (limit : Option Nat) : Run Dg → List Step → List Nat
   | _, [] => []
   | st, s :: ss =>
     st.inflight.length :: (match step id verify limit st s with
@@ -112,12 +112,13 @@ def showAttempt (cfg : Cfg) (c : Cache Dg) (a : Attempt Dg) : String × Cache Dg
   let r := pull id cfg c a
   let (ns, layers) := match a.man with
     | .error _ => ([], [])
-    | .ok m => (if m.layers.isEmpty then [] else waiting cfg.verify cfg.limit (startRun cfg c m a.plans) a.steps, m.all)
+    | .ok m => (if m.layers.isEmpty then [] else waiting cfg.variant cfg.limit (startRun cfg c m a.plans) a.steps, m.all)
   let link := match r.1.links a.name with
     | some m => toString m.id
     | none => "none"
   let files := layers.map fun l => hexOrDash ((r.1.files l.digest).getD [])
-  (s!"{showOutcome r.2} n={joinWith "." (ns.map toString)} link={link} files={joinWith "," files}", r.1)
+  let stage := layers.map fun l => hexOrDash ((r.1.staging l.digest).getD [])
+  (s!"{showOutcome r.2} n={joinWith "." (ns.map toString)} link={link} files={joinWith "," files} stage={joinWith "," stage}", r.1)
 
 def showHistory (cfg : Cfg) : Cache Dg → List (Attempt Dg) → List String
   | _, [] => []
@@ -166,8 +167,9 @@ def handle (toks : List String) : Option String :=
       let lim ← int
       let sc ← pBool
       let vf ← pBool
+      let sg ← pBool
       let as ← listOf pAttempt
-      let cfg : Cfg := ⟨thr, if lim < 0 then none else some lim.toNat, sc, vf⟩
+      let cfg : Cfg := ⟨thr, if lim < 0 then none else some lim.toNat, sc, vf, sg⟩
       pure (joinWith " | " (showHistory cfg Cache.empty as))) rest
   | "push" :: rest =>
     runTP (do
